@@ -379,6 +379,15 @@ Section Cmds.
       apply ar_old; [exact Hl|assumption|assumption|unfold G_lit_25_1, G_xrow; discriminate].
     Qed.
 
+    (* an address that a text-adding command accepts: inside the buffer, or address 0 *)
+    Lemma ar_bounds : bad && (negb (b =? 0) || negb (e =? 0)) = false -> 0 <= b <= e /\ e <= ExDefs.slen st.
+    Proof.
+      intro G. assert (Es : ExDefs.slen s1 = ExDefs.slen st) by (rewrite (ar_st m1 AR); reflexivity).
+      assert (Hn0 : 0 <= ExDefs.slen st) by (unfold ExDefs.slen, ExDefs.llen; lia).
+      revert G Es. destruct R as [[[bad0 b0] e0'] s0] eqn:ER. cbn [fst snd]. intros G Es. destruct bad0.
+      - cbn [andb] in G. destruct (Z.eqb_spec b0 0); [|discriminate G]. destruct (Z.eqb_spec e0' 0); [|discriminate G]. lia.
+      - pose proof (ExProps.region_bounds rvalid rfind s st b0 e0' s0 ER) as (B1 & B2 & _). lia.
+    Qed.
     (* the locals of a command: loc, cmd, arg, txt, &beg, &end, ... *)
     Variables (v1 v2 v3 : val) (rest : list val).
     Local Notation L := (VPtr bs 0 :: v1 :: v2 :: v3 :: VPtr bb 0 :: VPtr be 0 :: rest).
@@ -737,13 +746,7 @@ Section Cmds.
     (* ---- ec_insert *)
     Lemma final_bounds m1 : after_region rvalid rfind st mf bs s bb be d m1 -> bad && (negb (b =? 0) || negb (e =? 0)) = false ->
       0 <= b <= e /\ e <= ExDefs.slen st.
-    Proof.
-      intros AR G. assert (Es : ExDefs.slen s1 = ExDefs.slen st) by (rewrite (ar_st _ _ _ _ _ _ _ _ _ _ AR); reflexivity).
-      assert (Hn0 : 0 <= ExDefs.slen st) by (unfold ExDefs.slen, ExDefs.llen; lia).
-      revert G Es. destruct R as [[[bad0 b0] e0'] s0] eqn:ER. cbn [fst snd]. intros G Es. destruct bad0.
-      - cbn [andb] in G. destruct (Z.eqb_spec b0 0); [|discriminate G]. destruct (Z.eqb_spec e0' 0); [|discriminate G]. lia.
-      - pose proof (ExProps.region_bounds rvalid rfind s st b0 e0' s0 ER) as (B1 & B2 & _). lia.
-    Qed.
+    Proof. intros AR G. exact (ar_bounds rvalid rfind st mf bs s bb be d Hf m1 AR G). Qed.
     Lemma ins_positions cmd :
       ins_b rvalid rfind st s cmd = (if (hd0 cmd =? 97)%N && (b <? e) && (b + 1 <=? ExDefs.slen st) then b + 1 else b) /\
       ins_e rvalid rfind st s cmd = (if (hd0 cmd =? 99)%N then e else ins_b rvalid rfind st s cmd).
